@@ -1,30 +1,46 @@
 #!/usr/bin/env python3
-"""setup_cmd: build the whole Coq development (full .vo) and warm the Go build cache for every harness."""
-import os
-import sys
+"""setup_cmd: build the Coq development of every *claimed* check (full .vo) and warm the Go build cache for
+its harnesses.  Only the checks listed in MANIFEST.json are built, from the `COQ_TARGETS` / `SETUP_BUILDS` of
+their props/<id>.py, so that unfinished work of an unclaimed property cannot break the setup."""
 import importlib
+import json
+import os
+import shutil
+import sys
 
 V = os.path.dirname(os.path.dirname(os.path.abspath(__file__)))
 sys.path.insert(0, V)
 from lib import vlib  # noqa: E402
 
-rc, out = vlib.coq_make([], timeout=3000)
-print(out[-3000:])
-if rc != 0:
-    print("setup: Coq build failed")
-    sys.exit(1)
-ctx = vlib.Ctx("SETUP", "quick", 1)
+man = json.load(open(os.path.join(V, "MANIFEST.json")))
+mods = []
+for c in man.get("checks", []):
+    mods.append(importlib.import_module("props." + c["property_id"].lower()))
+targets = []
+for m in mods:
+    for t in getattr(m, "COQ_TARGETS", []):
+        t = t + "o" if t.endswith(".v") else t
+        if t not in targets:
+            targets.append(t)
 ok = True
-for f in sorted(os.listdir(os.path.join(V, "props"))):
-    if not f.endswith(".py") or f.startswith("_"):
-        continue
-    m = importlib.import_module("props." + f[:-3])
+if targets:
+    rc, out = vlib.coq_make(targets, timeout=6000)
+    print(out[-3000:])
+    if rc != 0:
+        print("setup: Coq build failed")
+        sys.exit(1)
+ctx = vlib.Ctx("SETUP", "quick", 1)
+done = set()
+for m in mods:
     for b in getattr(m, "SETUP_BUILDS", []):
         kw = dict(b)
+        key = json.dumps(kw, sort_keys=True)
+        if key in done:
+            continue
+        done.add(key)
         name = kw.pop("name")
         p = ctx.go_build(name, **kw)
-        print("setup: go build", name, "->", p)
+        print("setup: go build", name, "->", p, flush=True)
         ok = ok and bool(p)
-import shutil
 shutil.rmtree(ctx.tmp, ignore_errors=True)
 sys.exit(0 if ok else 1)
